@@ -208,6 +208,14 @@ def fold_into(run, res, what):
     c["t_vacuous_inputs"] = c.get("t_vacuous_inputs", 0) + st.vacuous
     c["t_errors_only_under_eager_evaluation"] = c.get("t_errors_only_under_eager_evaluation", 0) + st.eager_only
     c["t_transformer_raised_allowed_exception"] = c.get("t_transformer_raised_allowed_exception", 0) + res.raised_allowed
+    if st.cross:
+        x = c.setdefault("t_queries_redecided_by_other_solvers", {})
+        for k, d in st.cross.items():
+            t = x.setdefault(k, {"agree": 0, "unknown": 0, "disagree": 0})
+            for kk, vv in d.items():
+                t[kk] += vv
+    for d in st.cross_disagreements[:5]:
+        run.harness_error("solver disagreement: " + d)
     c.setdefault("t_skip_reasons", {}).update(st.skip_reasons)
     c.setdefault("t_units", []).append(what)
     c.setdefault("samples", [])
